@@ -12,7 +12,7 @@ open Desper Desper.World
 
 /-- The two tables never disagree: an entity is in the index of a type iff its row has a component
 filed under that type; a component is filed under its exact type; empty rows do not exist. -/
-theorem C01_transpose (U : Universe) (hints : List (List Ent)) (ops : List Op) :
+theorem C01_transpose (U : Universe) [U.NoReenter] (hints : List (List Ent)) (ops : List Op) :
     let s := run U { sweepHints := hints } ops
     (∀ e t, e ∈ idx s t ↔ (Dict.get? (row s e) t).isSome) ∧
     (∀ e t c, Dict.get? (row s e) t = some c → tyOf U c = t) ∧
@@ -22,7 +22,7 @@ theorem C01_transpose (U : Universe) (hints : List (List Ent)) (ops : List Op) :
 
 /-- `get(T)` lists exactly one `(entity, component)` pair for every attached component whose type
 is `T` or a subclass of `T`, and nothing else. -/
-theorem C01_get (U : Universe) (hU : U.WF) (hints : List (List Ent)) (ops : List Op) (t : Ty) :
+theorem C01_get (U : Universe) [U.NoReenter] (hU : U.WF) (hints : List (List Ent)) (ops : List Op) (t : Ty) :
     let s := run U { sweepHints := hints } ops
     (∀ e c, (e, c) ∈ World.get U s t ↔ ∃ st, Sub U st t ∧ Dict.get? (row s e) st = some c) ∧
     (World.get U s t).Nodup := by
@@ -76,7 +76,7 @@ theorem C01_get (U : Universe) (hU : U.WF) (hints : List (List Ent)) (ops : List
       exact hne ((h.rowTyped e1 st1 c1 hc1).symm.trans (h.rowTyped e1 st2 c1 hc2))
 
 /-- `get_components(e)` returns precisely the components attached to `e`. -/
-theorem C01_get_components (U : Universe) (hints : List (List Ent)) (ops : List Op) (e : Ent)
+theorem C01_get_components (U : Universe) [U.NoReenter] (hints : List (List Ent)) (ops : List Op) (e : Ent)
     (c : Obj) :
     let s := run U { sweepHints := hints } ops
     c ∈ getComponents s e ↔ ∃ t, Dict.get? (row s e) t = some c := by
@@ -85,7 +85,7 @@ theorem C01_get_components (U : Universe) (hints : List (List Ent)) (ops : List 
 
 /-- `get(object)` — the query by the root of every hierarchy — lists precisely the attached
 components, one pair per (entity, component). -/
-theorem C01_get_object (U : Universe) (hints : List (List Ent)) (ops : List Op) (e : Ent) (c : Obj) :
+theorem C01_get_object (U : Universe) [U.NoReenter] (hints : List (List Ent)) (ops : List Op) (e : Ent) (c : Obj) :
     let s := run U { sweepHints := hints } ops
     (e, c) ∈ getAll s ↔ ∃ t, Dict.get? (row s e) t = some c := by
   have h := tabInv_run (tabInv_init U hints) ops
@@ -109,7 +109,7 @@ theorem C01_get_object (U : Universe) (hints : List (List Ent)) (ops : List Op) 
 
 /-- `entities` / `entity_exists` name exactly the entities that own at least one component and
 are not awaiting deletion; `entities` lists each once. -/
-theorem C01_entities (U : Universe) (hints : List (List Ent)) (ops : List Op) (e : Ent) :
+theorem C01_entities (U : Universe) [U.NoReenter] (hints : List (List Ent)) (ops : List Op) (e : Ent) :
     let s := run U { sweepHints := hints } ops
     (e ∈ entities s ↔ (row s e ≠ [] ∧ e ∉ s.dead)) ∧
     (entityExists s e = true ↔ (row s e ≠ [] ∧ e ∉ s.dead)) ∧ (entities s).Nodup := by
